@@ -257,6 +257,35 @@ def check(ctx) -> None:
                 if not guarded:
                     ctx.finding("C11-X8", "%s:unguarded-index:%s" % (g.qualname.split("synrbl.", 1)[-1].split(".")[-1], const_str(n.value.slice)), g.loc(n), "%s is read without testing that the list is non-empty; a reaction whose search failed or timed out under every condition has an empty list, the IndexError escapes the MCS stage and the whole batch is dropped" % unparse(n)[:60])
     ctx.require(n_x8 >= 1, "no indexed read of a per-job result list found in the selection step")
+    # ---------------------------------------------------------------- X10
+    # the stage functions outside the per-row handlers see an *empty* list of records when every reaction of the batch
+    # failed: unpacking `a, b = zip(*records)` raises for an empty list unless an emptiness test returns first
+    ctx.rule("C11-X10", "stage code outside the per-row handlers does not unpack zip(*records) of a possibly empty list", 0)
+    stage_funcs = [g for q, g in prog.functions.items() if q.startswith("synrbl.SynMCSImputer.MissingGraph.find_graph_dict.") or q.startswith("synrbl.SynMCSImputer.SubStructure.extract_common_mcs.") or q in ("synrbl.mcs_search.MCSSearch.find",)]
+    n_x10 = 0
+    for g in stage_funcs:
+        if g.parent is not None:
+            continue
+        gcfg = None
+        for n in own_nodes(g.node):
+            if isinstance(n, ast.Assign) and len(n.targets) == 1 and isinstance(n.targets[0], (ast.Tuple, ast.List)) and isinstance(n.value, ast.Call) and getattr(n.value.func, "id", "") == "zip" and any(isinstance(a, ast.Starred) for a in n.value.args):
+                n_x10 += 1
+                star = next(a for a in n.value.args if isinstance(a, ast.Starred))
+                srcs = {x.id for x in ast.walk(star.value) if isinstance(x, ast.Name) and (x.id in g.params or assignments_to(g, x.id))}
+                gcfg = gcfg or CFG(g.node)
+                nid = gcfg.node_of(n)
+                guarded = False
+                for c_, pol in gcfg.guards(nid) if nid is not None else []:
+                    for nm in srcs:
+                        if _nonempty_when(c_, nm) is pol:
+                            guarded = True
+                ok_t, _t = _covered(n, g, {"ValueError"})
+                guarded = guarded or ok_t
+                ctx.instance("C11-X10", "%s: %s (non-emptiness of %s established: %s)" % (g.name, unparse(n)[:60], sorted(srcs), guarded), g.loc(n), ok=guarded)
+                if not guarded:
+                    ctx.finding("C11-X10", "%s:unpack-of-empty-zip" % g.qualname.split("synrbl.", 1)[-1].split(".")[-1], g.loc(n), "%s unpacks zip(*..) of %s without an emptiness test: when every reaction that reached the MCS stage failed or timed out the list is empty, the ValueError escapes the stage and the whole batch is dropped" % (g.name, sorted(srcs)))
+    if n_x10 == 0:
+        ctx.note("C11-X10: no unpacking of zip(*records) in the stage functions on this tree")
     # ---------------------------------------------------------------- X7
     # the per-row jobs keep no state between calls: an outcome that depends on the clock (a timeout) must not be
     # remembered and replayed for other rows (shared with C06-B4, restricted to what the jobs reach)
